@@ -30,7 +30,7 @@ def showLink (l : L) : String :=
   let c := l.core
   let log := ",".intercalate ((sortLog c.log).map fun e => s!"{e.1}:{e.2}")
   let q := ",".intercalate (l.queue.map showQItem)
-  s!"{c.connId} c={showBool c.connected} ph={showPhase c.phase} w={c.window} inf={c.inFlight} log=[{log}] hi={c.highestAcked} " ++
+  s!"{c.connId}@{l.addr} c={showBool c.connected} ph={showPhase c.phase} w={c.window} inf={c.inFlight} log=[{log}] hi={c.highestAcked} " ++
   s!"lr={showOptNat c.lastReceived} ls={showOptNat c.lastSent} lka={showOptNat l.lastKeepaliveSent} proof={c.proofMs} " ++
   s!"gated={showBool l.stallGated} lat={l.latchedSince} rec={l.recoverySince} gev={l.gateEvents} pc={l.probeCounter} " ++
   s!"pulled={showBool l.silencePulled} mark={showOptNat l.pullMark} pulls={l.silencePulls} cto={l.connTimeoutMs} " ++
@@ -67,16 +67,38 @@ def showOut (ids : List Nat) (o : Out) : String :=
   let c := ",".intercalate (o.client.map toHex)
   s!"wire=[{w}] client=[{c}] err={showBool o.hkErr}"
 
+def insertNat (e : Nat) : List Nat → List Nat
+  | [] => [e]
+  | x :: xs => if e ≤ x then e :: x :: xs else x :: insertNat e xs
+
+/-- The key set of the I/O map is printed in increasing order (a `HashMap` has no order). -/
+def sortNat (l : List Nat) : List Nat := l.foldr insertNat []
+
 def showSys (s : S) : String :=
-  s!"sys[last={showOptNat s.lastSelected} ck={showBool s.clientKnown} afa={showOptNat s.allFailedAt} fail={showList s.failNext} fb={showList s.failBind}] " ++
+  s!"sys[last={showOptNat s.lastSelected} ck={showBool s.clientKnown} afa={showOptNat s.allFailedAt} fail={showList s.failNext} fb={showList s.failBind} io={showList (sortNat s.io)}] " ++
   showReg s.reg ++ " | " ++ " | ".intercalate (s.links.map showLink)
 
 def idFromSeed (seed : Nat) (salt : Nat) : List UInt8 :=
   (List.range 256).map fun i => UInt8.ofNat ((seed * 31 + i * 7 + salt) % 256)
 
+/-- Start-up: `create_connections_from_ips` over `n` addresses (address token `i + 1`, conn id `i + 1`). -/
 def initSys (n seed now : Nat) : S :=
-  { links := (List.range n).map fun i => FLink.newRegistering (i + 1) now,
-    reg := Reg.Reg.new (idFromSeed seed 0) (idFromSeed seed 101) }
+  { links := (List.range n).map fun i => FLink.newUplink (i + 1) (i + 1) now,
+    reg := Reg.Reg.new (idFromSeed seed 0) (idFromSeed seed 101),
+    io := (List.range n).map (· + 1) }
+
+/-- The outcomes of the `connect_uplink` attempts of a reload: an address in `fails` is refused (binder
+error), every other attempt succeeds and draws the next canonical conn id (`created + 1`, … : the harness
+renames the random ids of the real code in creation order). Returns the outcomes and the new counter. -/
+def reloadOuts (fails : List Nat) : List Nat → Nat → List (Option Nat) × Nat
+  | [], created => ([], created)
+  | a :: rest, created =>
+    if fails.contains a then
+      let r := reloadOuts fails rest created
+      (none :: r.1, r.2)
+    else
+      let r := reloadOuts fails rest (created + 1)
+      (some (created + 1) :: r.1, r.2)
 
 def parseCfg (toks : List String) : Option Select.Cfg := do
   let classic ← kvBool toks "classic"
@@ -210,6 +232,8 @@ constant line `unmodelled`. -/
 structure DS where
   s : S
   unmodelled : Bool := false
+  /-- how many uplinks have been created in this case so far (canonical conn ids are 1, 2, … in creation order) -/
+  created : Nat := 0
 
 def emptyD : DS := { s := empty }
 
@@ -226,6 +250,20 @@ def stepD (d : DS) (toks : List String) : DS × String :=
   | ["liveloop", _] =>
     -- the harness runs the REAL event loop against a fake receiver in real time; monitors only
     (d, "liveloop-ok")
+  | ["reload", now, addrs, fails] =>
+    -- the tail of the housekeeping arm after a SIGHUP: the real `apply_connection_changes`
+    match now.toNat?, parseNatList addrs, parseNatList fails with
+    | some now, some addrs, some fails =>
+      -- address tokens are the last octet of 127.0.1.x on the harness side
+      if (addrs ++ fails).any (fun a => a == 0 || a > 254) then (d, "bad-op") else
+      let (outs, created) := reloadOuts fails (neededAddrs d.s.links addrs) d.created
+      let r := Sys.step d.s (.reload now addrs outs)
+      ({ d with s := r.1, created := created },
+       showOut (r.1.links.map fun (l : L) => l.core.connId) r.2 ++ " | " ++ showSys r.1)
+    | _, _, _ => (d, "bad-op")
+  | ["init", n, _, _] =>
+    let (s', o) := step d.s toks
+    ({ d with s := s', created := if o == "bad-op" then d.created else n.toNat?.getD 0 }, o)
   | _ => let (s', o) := step d.s toks; ({ d with s := s' }, o)
 
 end Srtla.Drv.SysDrv
